@@ -71,6 +71,10 @@ def gen_one(r, i, tier):
             ops.append(("pure", r.randrange(npool), r.randrange(npool)))
         elif npool < 7:
             ops.append(("new", spec)); npool += 1
+    # every program ends with the read-only operations on both originals (helper methods such as
+    # histogram(), getOrElse(), zero(), copy() must neither change them nor hand out their objects)
+    ops.append(("pure", 0, 1))
+    ops.append(("pure", 1, 0))
     return {"ops": ops, "meta": {}}
 
 
